@@ -4,6 +4,7 @@ import Driver.C06
 import Driver.C07
 import Driver.C11
 import Driver.C13
+import Driver.C14
 import Driver.C15
 import Driver.C16
 import Driver.C17
@@ -23,6 +24,7 @@ def dispatch (line : String) : String :=
     | "C07" | "C08" => Driver.C07.handle prop kv
     | "C11" => Driver.C11.handle kv
     | "C13" => Driver.C13.handle kv
+    | "C14" => Driver.C14.handle kv
     | "C15" => Driver.C15.handle kv
     | "C16" => Driver.C16.handle kv
     | "C17" => Driver.C17.handle kv
